@@ -379,6 +379,20 @@ class World(SessionWorld):
                 self.run.probe("several-handlers-on-one-id")
         else:
             sid = self.pending_unsubs.pop(rid)
+            if ch.flag("unsubscribe-refused", 0.15):
+                # the router refuses the UNSUBSCRIBE (ERROR): for the router the session stays subscribed - events keep
+                # coming (no handler is attached any more: dropped silently), and a later subscribe() to the topic is
+                # answered with the same subscription id
+                self.run.fault("unsubscribe-refused-by-router")
+                self.router_active[sid] = True
+                for h in self.handlers:
+                    if h.sid == sid:
+                        self.router_subs.setdefault(h.topic, sid)
+                exc = self.deliver(M.Error(34, rid, "wamp.error.not_authorized"))
+                self.settle()
+                if exc is not None:
+                    self.run.violate("C11.isolation", "legal-error-raised:%s" % type(exc).__name__, repr(exc))
+                return
             exc = self.deliver(M.Unsubscribed(rid))
             self.settle()
             if exc is not None:
